@@ -256,6 +256,9 @@ def gen_model(rng, depth=0, prop=False):
                     alts.insert(rng.randrange(len(alts) + 1), ('o', [('type', ('s', rng.choice(['"datetime"', '"email"', '"date"', '"uri"', '"uuid"'])))]))
                 if rng.random() < 0.4:      # an enum inside a rule-set: its name may be quoted and padded like every rule name
                     alts.insert(rng.randrange(len(alts) + 1), ('o', [('type', ('s', '"enum"')), ('enum', ('l', [('s', v), ('s', '"x"')]))]))
+                if rng.random() < 0.3:      # the same user type more than once, as a name and as a rule-set
+                    alts.insert(rng.randrange(len(alts) + 1), ('s', '"@t"'))
+                    alts.append(rng.choice([('s', '"@t"'), ('o', [('type', ('s', '"@t"'))])]))
                 rules = [('or', ('l', alts))]
             elif c < 0.85:
                 rules = [('const', ('s', rng.choice(['true', 'false'])))]
@@ -278,7 +281,7 @@ def gen_model(rng, depth=0, prop=False):
             return ('L', v, maybe(rules))
         if k < 0.9:
             return ('L', rng.choice(['true', 'false', 'null']), maybe([]))
-        names = rng.choice([['@t'], ['@u'], ['@t', '@u'], ['@o'], ['@u', '@o', '@t']])
+        names = rng.choice([['@t'], ['@u'], ['@t', '@u'], ['@o'], ['@u', '@o', '@t'], ['@t', '@u', '@t'], ['@u', '@u']])   # a name may stand twice
         return ('R', names, maybe([], 0))
     if r < 0.7:
         n = rng.randint(0, 3)
